@@ -109,6 +109,9 @@ def run(rec, cfg):
         rec.arm("start:" + src)
         k += 1
         MR.HINTS[:] = hints
+        if k % 3 == 1:
+            # in-place chain: the same node objects are printed, rewritten in place and printed again
+            D.inplace_chain(rec, root, use, rng, steps=rng.randint(2, 6), big=big)
         if k % 4 == 0 and not big:
             ep = D.Episode(root, rng, policy=rng.choice(["balanced", "novelty"]))
             for _ in range(rng.randint(10, 40)):
